@@ -123,14 +123,36 @@ func (s *Session) forkLoad() {
 	h := s.h
 	h.CapInc = []int{1, 2, 3, 128}[len(s.a.issued)%4]
 	b := NewWorld(h)
-	pre := len(s.a.issued)%2 == 0
-	if pre {
-		// a world that was used and reset
+	preKind := (len(s.a.issued) + s.i) % 4
+	pre := preKind != 0
+	switch preKind {
+	case 1:
+		// a world that was used and reset while entities were alive
 		for k := 0; k < 3; k++ {
 			b.w.NewEntity(b.ids(b.compNums[:1])...)
 		}
 		e := b.w.NewEntity()
 		b.w.RemoveEntity(e)
+		b.w.Reset()
+	case 2:
+		// a world whose entities were all removed one by one before the reset (ids recycled, generations raised)
+		es := []ecs.Entity{}
+		for k := 0; k < 4; k++ {
+			es = append(es, b.w.NewEntity(b.ids(b.compNums[:1])...))
+		}
+		b.w.RemoveEntity(es[1])
+		es[1] = b.w.NewEntity()
+		for _, e := range es {
+			b.w.RemoveEntity(e)
+		}
+		b.w.Reset()
+	case 3:
+		// emptied by a batch removal, reset twice
+		for k := 0; k < 3; k++ {
+			b.w.NewEntity(b.ids(b.compNums[:1])...)
+		}
+		b.w.Batch().RemoveEntities(ecs.All())
+		b.w.Reset()
 		b.w.Reset()
 	}
 	b.issued = append([]ecs.Entity{}, s.a.issued...)
